@@ -1178,7 +1178,7 @@ theorem readAndCutStr_swap_chars {o : Opt} (h : NoLfNulChars o) (input : Bytes) 
 section lines
 variable {σ : UInt8 → UInt8}
 
-theorem lineJoiner_map (e : EOL) (o : Opt) (he : e.byte = σ o.eol.byte) (rest : List BoF) :
+theorem lineJoiner_map_swap (e : EOL) (o : Opt) (he : e.byte = σ o.eol.byte) (rest : List BoF) :
     lineJoiner (o.mapLit σ e) rest = (lineJoiner o rest).map σ := by
   unfold lineJoiner
   simp_mapLit [he]
@@ -1193,14 +1193,14 @@ theorem fwdLine_map (e : EOL) (o : Opt) (he : e.byte = σ o.eol.byte) (line : By
   | .filler f :: t, addNl, h => by
     have ih := fwdLine_map e o he line idx t addNl (fun b hb => h b (by simp [hb]))
     have hf : f.map σ = f := h (.filler f) (by simp)
-    simp only [fwdLine, ih, lineJoiner_map e o he, List.map_append, hf]
+    simp only [fwdLine, ih, lineJoiner_map_swap e o he, List.map_append, hf]
   | .bound b :: t, addNl, h => by
     have ih := fwdLine_map e o he line idx t false (fun b hb => h b (by simp [hb]))
     simp only [fwdLine]
     split
     · simp_mapLit [he]
       split
-      · simp only [ih, lineJoiner_map e o he, List.map_append]
+      · simp only [ih, lineJoiner_map_swap e o he, List.map_append]
         cases addNl <;> rfl
       · simp only [List.map_append]
         cases addNl <;> rfl
@@ -1230,7 +1230,7 @@ theorem fwdEnd_map (e : EOL) (o : Opt) (he : e.byte = σ o.eol.byte)
   | .filler f :: t, a, h => by
     have ih := fwdEnd_map e o he hoob t a (fun b hb => h b (by simp [hb]))
     have hf : f.map σ = f := h (.filler f) (by simp)
-    simp only [fwdEnd, ih, lineJoiner_map e o he, Run.mapOut_pre, List.map_append, hf]
+    simp only [fwdEnd, ih, lineJoiner_map_swap e o he, Run.mapOut_pre, List.map_append, hf]
   | .bound b :: t, a, h => by
     have ih := fwdEnd_map e o he hoob t false (fun b hb => h b (by simp [hb]))
     have hb : ∀ f, b.fallback = some f → f.map σ = f := h (.bound b) (by simp)
@@ -1240,17 +1240,17 @@ theorem fwdEnd_map (e : EOL) (o : Opt) (he : e.byte = σ o.eol.byte)
       simp only [if_true]
       split
       · rfl
-      · simp only [ih, lineJoiner_map e o he, Run.mapOut_pre]
+      · simp only [ih, lineJoiner_map_swap e o he, Run.mapOut_pre]
     | false =>
       simp only [Bool.false_eq_true, if_false]
       cases hfb : b.fallback with
       | some f =>
-        simp only [ih, lineJoiner_map e o he, Run.mapOut_pre, List.map_append, hb f hfb]
+        simp only [ih, lineJoiner_map_swap e o he, Run.mapOut_pre, List.map_append, hb f hfb]
       | none =>
         simp_mapLit []
         cases ho : o.fallbackOob with
         | some f =>
-          simp only [ih, lineJoiner_map e o he, Run.mapOut_pre, List.map_append, hoob f ho]
+          simp only [ih, lineJoiner_map_swap e o he, Run.mapOut_pre, List.map_append, hoob f ho]
         | none => rfl
 
 theorem stripEol_map (hσ : Function.Injective σ) (eol : UInt8) (l : Bytes) :
